@@ -14,6 +14,7 @@ import (
 	"math/rand"
 	"strings"
 	"testing"
+	"time"
 
 	"github.com/creachadair/jrpc2"
 	"github.com/creachadair/jrpc2/handler"
@@ -343,6 +344,67 @@ func TestC14(t *testing.T) {
 			res.Violatef("unmarshalable result broke the connection", m, "method %s: client stopped (%v)", m, err)
 			break
 		}
+	}
+
+	// ---- the same for the handler on the other side: a client's OnCallback handler answering a
+	// server Callback. Raw peer first (what is on the wire), then a real server.
+	for _, m := range []string{"bad", "badch", "nan", "rawbad", "rawtrunc", "rawptr", "marshaler", "e"} {
+		res.Case("callback-unmarshalable:"+m, true, m)
+		onCB := func(cctx context.Context, req *jrpc2.Request) (any, error) {
+			if req.Method() == "e" {
+				return nil, &jrpc2.Error{Code: 7, Message: "cb failed", Data: json.RawMessage(`[1]`)}
+			}
+			return c14mux[req.Method()](cctx, req)
+		}
+		peer, cch := rawPair()
+		cl := jrpc2.NewClient(cch, &jrpc2.ClientOptions{OnCallback: onCB})
+		peer.Send([]byte(`{"jsonrpc":"2.0","id":41,"method":"` + m + `"}`))
+		reply, rerr := peer.Recv()
+		var obj struct {
+			ID     json.RawMessage `json:"id"`
+			Result json.RawMessage `json:"result"`
+			Error  *struct {
+				Code    *int    `json:"code"`
+				Message *string `json:"message"`
+			} `json:"error"`
+		}
+		if rerr != nil || !json.Valid(reply) || json.Unmarshal(reply, &obj) != nil {
+			res.Violatef("callback handler: malformed reply on the wire", m, "method %s: reply %q err %v", m, reply, rerr)
+		} else if obj.Error == nil || obj.Error.Code == nil || obj.Error.Message == nil || obj.Result != nil || string(obj.ID) != "41" {
+			res.Violatef("callback handler: unmarshalable result (or error) did not become an error reply", m, "method %s: reply %s", m, reply)
+		} else if m == "e" && *obj.Error.Code != 7 {
+			res.Violatef("callback handler: *Error code changed", m, "reply %s", reply)
+		}
+		peer.Close()
+		cl.Close()
+
+		// through a real server: Callback must report an error
+		sch2, cch2 := rawPair()
+		got := make(chan error, 1)
+		srv2 := jrpc2.NewServer(handler.Map{"go": func(hctx context.Context, req *jrpc2.Request) (any, error) {
+			rsp, err := jrpc2.ServerFromContext(hctx).Callback(hctx, m, nil)
+			if err == nil {
+				err = fmt.Errorf("SUCCESS:%s", rsp.ResultString())
+			}
+			got <- err
+			return nil, nil
+		}}, &jrpc2.ServerOptions{AllowPush: true}).Start(sch2)
+		cl2 := jrpc2.NewClient(cch2, &jrpc2.ClientOptions{OnCallback: onCB})
+		cl2.Notify(ctx, "go", nil)
+		select {
+		case err := <-got:
+			if strings.HasPrefix(err.Error(), "SUCCESS:") {
+				res.Violatef("callback handler: unmarshalable result did not become an error", m, "method %s: Callback returned %s", m, err)
+			} else if je, ok := err.(*jrpc2.Error); !ok {
+				res.Violatef("callback handler: malformed or missing reply", m, "method %s: %v", m, err)
+			} else if m == "e" && (je.Code != 7 || je.Message != "cb failed" || !jsonEqual(je.Data, []byte(`[1]`))) {
+				res.Violatef("callback handler: *Error code/message/data changed", m, "%+v", je)
+			}
+		case <-time.After(5 * time.Second):
+			res.Violatef("callback handler: Callback never returned", m, "method %s", m)
+		}
+		cl2.Close()
+		srv2.Wait()
 	}
 
 	// ---- ErrorCode(c.Err()) == c
